@@ -1,5 +1,5 @@
 """C17 -- reported statistics are exact counts obeying conservation laws."""
-from ..rules import counters, process, search
+from ..rules import counters, model, process, search
 
 EXPLANATION = (
     'Static analysis: for each of the 13 counters the set of statements modifying statistics[<folded index>] on the abstract paths of the propagation loop, shaving loop, backtrack and solve_one equals its event site: +1 exactly once on every path where the event happens and on no other (entry of a pass, each indirect filtering call, failing return, entailed status, no-store iteration through the flag protocol, solution return, value-heuristic call, max-update of depth, pop, probe, probe outcome); nobody else writes the array; labels map to the index of the same name in both get_statistics, sum for all but depth (max); each worker message overwrites its own slot.'
@@ -13,4 +13,5 @@ def check(ctx, prog):
     search.rule_solve_one(ctx, prog, want=("R-COUNTER",))
     counters.rule_counter_writers(ctx, prog, thorough=ctx.tier == "thorough")
     counters.rule_stats_map(ctx, prog)
+    model.rule_constants(ctx, prog, want=("stats",))
     process.rule_marker_parent(ctx, prog)
